@@ -317,7 +317,18 @@ pub fn run(prop: &'static str, args: &Args) -> i32 {
     let fams: &[&str] = if prop == "C08" { &["fixtures", "struct", "funcs", "locals", "names", "customs", "idshift", "ctrl", "reach", "leb", "minimal"] } else { &["customs", "fixtures"] };
     let depth = if args.tier == Tier::Quick { 4 } else { 6 };
     let ms = crate::props::families::members(fams, args, &mut ev);
-    let cases: Vec<Case> = ms.iter().map(|m| Case::of(m).with(Cfg::default().json())).collect();
+    let mut cases: Vec<Case> = ms.iter().map(|m| Case::of(m).with(Cfg::default().json())).collect();
+    if prop == "C12" {
+        // the same members under the configurations that route custom sections through other code
+        // paths (code-transform preservation, DWARF generation, name / producers generation off)
+        for cfg in [
+            Cfg { preserve_ct: true, ..Cfg::default() },
+            Cfg { dwarf: true, ..Cfg::default() },
+            Cfg { names: false, producers: false, ..Cfg::default() },
+        ] {
+            cases.extend(ms.iter().map(|m| Case::of(m).with(cfg.json())));
+        }
+    }
     let deadline = Instant::now() + Duration::from_secs_f64(args.budget_s);
     let (res, done) = pmap(&cases, args.threads, Some(deadline), |c| explore_case(prop, c, if worker { 0 } else { depth }));
     if worker {
